@@ -610,12 +610,18 @@ package resolve
 //@   at call SetNull: assert {null.only.in.prewalk} !rendering(r)
 //@   ghost itervar g_denied bool = false
 //@   at call authorizeField: ghost g_denied = result
+//@   ghost var g_pendingDeny bool = false
+//@   at call authorizeField: ghost g_pendingDeny = result
+//@   at call Value.Get: ghost g_pendingDeny = g_pendingDeny && result != nil
+//@   at call SetNull: ghost g_pendingDeny = false
+//@   ensures {denied.field.nulled.or.bubbled} !result ==> !g_pendingDeny
 //@   at call walkNode: assert {denied.field.not.walked} !g_denied
 //@   at call printBytes: assert {denied.field.not.printed} !g_denied
 //@   ensures {stack.restored} len(r.path) == old(len(r.path))
 //@   modifies *, count(*)
 //@   loop 0:
 //@     invariant len(r.path) == old(len(r.path))
+//@     invariant {denied.field.handled.before.next.field} !g_pendingDeny
 
 //@ func Resolvable.authorizeField
 //@   requires r != nil
@@ -709,3 +715,87 @@ package resolve
 //@   ensures {nothing.written} count(wrote) == old(count(wrote))
 //@   modifies s.closePerm
 //@   safety nil
+
+// ----------------------------------------------------------------------------------------------
+// C14 seeding completeness: after authorizePreFetch every collected coordinate has a decision
+//@ decl stable FieldAuthorization.allow by NewFieldAuthorization
+//@ decl stable FieldAuthorization.deny by NewFieldAuthorization
+//@ decl stable FieldAuthorization.ctx by NewFieldAuthorization
+//@ func PreFetchFieldAuthorizer.AuthorizeFields
+//@   modifies global(ext)
+//@   trusted interface method, implementations are outside package resolve
+
+//@ spec seededAt(a *FieldAuthorization, info *GraphQLResponseInfo, i int) bool = has(a.allow, decisionID(info.AuthorizationCoordinates[i].DataSourceID, info.AuthorizationCoordinates[i].Coordinate.TypeName, info.AuthorizationCoordinates[i].Coordinate.FieldName)) || has(a.deny, decisionID(info.AuthorizationCoordinates[i].DataSourceID, info.AuthorizationCoordinates[i].Coordinate.TypeName, info.AuthorizationCoordinates[i].Coordinate.FieldName))
+
+//@ func FieldAuthorization.seedAllow
+//@   requires a != nil && a.allow != nil
+//@   ensures has(a.allow, decisionID(dataSourceID, coordinate.TypeName, coordinate.FieldName))
+//@   ensures forall k :: old(has(a.allow, k)) ==> has(a.allow, k)
+//@   modifies mapof(a.allow)
+
+//@ func FieldAuthorization.seedDeny
+//@   requires a != nil && a.deny != nil
+//@   ensures has(a.deny, decisionID(dataSourceID, coordinate.TypeName, coordinate.FieldName))
+//@   ensures forall k :: old(has(a.deny, k)) ==> has(a.deny, k)
+//@   modifies mapof(a.deny)
+
+//@ func FieldAuthorization.authorizePreFetch
+//@   requires a != nil && a.ctx != nil && a.allow != nil && a.deny != nil
+//@   assumes response != nil && response.Info != nil ==> len(response.Info.AuthorizationCoordinates) < 1000000000
+//@   ensures {every.collected.coordinate.is.decided} result == nil && a.ctx.preFetchFieldAuthorizer != nil && response != nil && response.Info != nil ==> (forall i in 0..len(response.Info.AuthorizationCoordinates) :: seededAt(a, response.Info, i))
+//@   modifies *
+//@   safety none
+//@   loop 1:
+//@     invariant 0 <= i && i <= len(response.Info.AuthorizationCoordinates)
+//@     invariant forall k in 0..i :: seededAt(a, response.Info, k)
+
+//@ decl stable GraphQLResponseInfo.AuthorizationCoordinates
+//@ decl stableelems AuthorizationCoordinate
+
+// ----------------------------------------------------------------------------------------------
+// C16 in the loader: what is collected for the cache, what a hit synthesises, failures never fail a request
+//@ func Cache.GetMany
+//@   modifies global(ext)
+//@   trusted interface method (cache back end)
+//@ func Cache.SetMany
+//@   modifies global(ext)
+//@   emits cacheSet
+//@   trusted interface method (cache back end)
+
+//@ decl stable preparedFetch.responseCacheKeys by Loader.prepareEntityFetch, Loader.prepareBatchEntityFetch
+//@ decl stable preparedFetch.responseCacheItems by Loader.responseCacheCollect, Loader.responseCacheFlush
+//@ decl stable Context.responseCache by Context.SetResponseCache, Context.Free
+
+//@ func Loader.responseCacheEnabled
+//@   ensures result <==> (l.ctx != nil && l.ctx.responseCache != nil)
+//@   pure
+
+//@ func Loader.reportResponseCacheError
+//@   modifies global(ext)
+//@   trusted calls the onError hook of the request's cache configuration; nothing else
+
+//@ func Loader.responseCacheCollect
+//@   requires l != nil && prepared != nil && prepared.res != nil
+//@   let notCacheable = prepared.skipLoad || prepared.responseCacheHit || prepared.res.err != nil || len(prepared.res.out) == 0 || prepared.res.statusCode >= 400
+//@   ghost var g_ttlCalled bool = false
+//@   ghost var g_ttlOk bool = false
+//@   ghost var g_ttl int = 0
+//@   ghost var g_src intarray = zeroarray
+//@   at call caching.TTL: ghost g_ttlCalled = true
+//@   at call caching.TTL: ghost g_ttlOk = result1
+//@   at call caching.TTL: ghost g_ttl = result0
+//@   at call append: ghostpre g_src = store(g_src, len(arg0), i)
+//@   ensures {failed.or.skipped.fetch.collects.nothing} notCacheable ==> arr(prepared.responseCacheItems) == old(arr(prepared.responseCacheItems)) && len(prepared.responseCacheItems) == old(len(prepared.responseCacheItems))
+//@   ensures {collects.only.when.ttl.allows} len(prepared.responseCacheItems) != old(len(prepared.responseCacheItems)) || arr(prepared.responseCacheItems) != old(arr(prepared.responseCacheItems)) ==> g_ttlCalled && g_ttlOk
+//@   ensures {every.item.carries.the.header.ttl} arr(prepared.responseCacheItems) != old(arr(prepared.responseCacheItems)) ==> (forall k in 0..len(prepared.responseCacheItems) :: prepared.responseCacheItems[k].TTL == g_ttl)
+//@   modifies *, count(jsonSet)
+//@   loop 0:
+//@     invariant 0 <= i && i <= len(values) && len(values) == len(prepared.responseCacheKeys) && len(items) <= i
+//@     invariant fresh(items) && !notCacheable && g_ttlCalled && g_ttlOk && ttl == g_ttl
+//@     invariant {key.paired.with.its.entity} forall k in 0..len(items) :: 0 <= g_src[k] && g_src[k] < i && items[k].Key == prepared.responseCacheKeys[g_src[k]] && jsrc(arr(items[k].Value)) == values[g_src[k]] && items[k].TTL == g_ttl
+//@     invariant arr(prepared.responseCacheItems) == old(arr(prepared.responseCacheItems)) && len(prepared.responseCacheItems) == old(len(prepared.responseCacheItems))
+
+//@ func Loader.responseCacheFlush
+//@   requires l != nil && prepared != nil
+//@   ensures {flushed.once} old(l.ctx != nil && l.ctx.responseCache != nil) ==> len(prepared.responseCacheItems) == 0
+//@   modifies *, count(cacheSet)
